@@ -44,7 +44,8 @@ def c20_docs(draw):
         doc = draw(docs.documents(max_subnets=4, max_size=2, max_hosts=6, extras=False, wide=0))
     else:
         # permissive single-service scenario on a random tree (+ extra edges): isolates the topology
-        n = draw(st.integers(2, 6))
+        many = draw(st.integers(0, 11)) == 0          # now and then many subnets / many sensitive hosts (10+ terminals)
+        n = draw(st.integers(9, 12)) if many else draw(st.integers(2, 6))
         sizes = [1] * n
         if draw(st.booleans()):
             sizes[draw(st.integers(0, n - 1))] = 2
@@ -76,7 +77,10 @@ def c20_docs(draw):
         pes = {"pe": dict(process="tomcat", os="none", prob=1.0, cost=1, access="root")}
         hc = {a: dict(os="linux", services=["ssh"], processes=["tomcat"], value=1) for a in addrs}
         k = draw(st.integers(1, min(3, len(addrs))))
-        if template in ("branches", "star") and draw(st.booleans()):
+        if many:
+            k = draw(st.integers(7, len(addrs) - 1))
+            sens_addrs = draw(st.lists(st.sampled_from(addrs[1:]), min_size=k, max_size=k, unique=True))
+        elif template in ("branches", "star") and draw(st.booleans()):
             # sensitive hosts in the leaves
             leaves = [a for a in addrs if sum(topo[a[0]][1:]) == 2 and a[0] != 1] or addrs
             k = min(k + 1, len(leaves), 3)
@@ -422,6 +426,9 @@ CORPUS = [
     ("chain", tight_doc([(0, 1), (1, 2), (2, 3), (3, 4)], 4, {(4, 0): 10, (2, 0): 10})),
     ("two-public", tight_doc([(0, 1), (0, 4), (1, 2), (2, 3), (3, 4)], 4, {(2, 0): 10, (3, 0): 10})),
     ("star-3", tight_doc([(0, 1), (1, 2), (1, 3), (1, 4)], 4, {(2, 0): 10, (3, 0): 10, (4, 0): 10})),
+    ("star-9", tight_doc([(0, 1)] + [(1, k) for k in range(2, 11)], 10, {(k, 0): 10 for k in range(2, 11)})),
+    ("two-hubs-8", tight_doc([(0, 1), (1, 2), (1, 3)] + [(2, k) for k in range(4, 8)] + [(3, k) for k in range(8, 12)], 11,
+                             {(k, 0): 10 for k in range(4, 12)})),
 ]
 
 
